@@ -99,11 +99,17 @@ func (s *socket) SendMsg(m *protocol.Message) error {
 }
 
 func (s *socket) RecvMsg() (*protocol.Message, error) {
+	var expireQ <-chan time.Time
 	for {
 		timeQ := nilQ
 		s.Lock()
 		if s.recvExpire > 0 {
-			timeQ = time.After(s.recvExpire)
+			if expireQ == nil {
+				// the deadline belongs to the call: armed once, not
+				// again each time the queue is replaced
+				expireQ = time.After(s.recvExpire)
+			}
+			timeQ = expireQ
 		}
 		sizeQ := s.sizeQ
 		recvQ := s.recvQ
